@@ -206,9 +206,17 @@ func (s *njSess) reads(uuid string) map[string]string {
 	get("all?fields=status&show=time", "all?fields=status&show=time", true)
 	get("fields", "fields", true)
 	get("fields?counts=true", "fields?counts=true", false)
+	for _, typ := range []string{"json_schema", "schema", "schema_batch"} {
+		get(typ, typ, false)
+	}
 	for _, rg := range [][2]int{{0, 99999}, {1001, 1003}, {5, 1002}, {999, 1000}, {1003, 1001}, {20, 100}, {2, 30}} {
 		get(fmt.Sprintf("keyrange/%d/%d", rg[0], rg[1]), fmt.Sprintf("keyrange/%d/%d", rg[0], rg[1]), true)
 		get(fmt.Sprintf("keyrangevalues/%d/%d?json=true", rg[0], rg[1]), fmt.Sprintf("keyrangevalues/%d/%d?json=true", rg[0], rg[1]), false)
+	}
+	// open-ended and extreme range ends (the documented "0/a" idiom, the largest body id, non-numeric starts)
+	for _, rg := range [][2]string{{"0", "a"}, {"0", "z"}, {"20", "18446744073709551615"}, {"0", "18446744073709551614"}, {"a", "z"}, {"1000", "1000"}, {"0", "0"}} {
+		get("keyrange/"+rg[0]+"/"+rg[1], "keyrange/"+rg[0]+"/"+rg[1], true)
+		get("keyrangevalues/"+rg[0]+"/"+rg[1]+"?json=true", "keyrangevalues/"+rg[0]+"/"+rg[1]+"?json=true", false)
 	}
 	for _, id := range s.ids {
 		get(fmt.Sprintf("key/%d", id), fmt.Sprintf("key/%d", id), false)
@@ -447,6 +455,24 @@ func runC16(c *Ctx) {
 			for round := 0; round < rounds; round++ {
 				nops := 6 + s.r.Intn(10)
 				for i := 0; i < nops; i++ {
+					if s.r.Chance(0.12) {
+						// schema metadata of the version: set or deleted (the validation schema stays permissive, and a
+						// second variant constrains one field's type so that some posts are refused on both paths alike)
+						typ := []string{"json_schema", "schema", "schema_batch"}[s.r.Intn(3)]
+						if s.r.Chance(0.8) {
+							body := fmt.Sprintf(`{"type":"object","title":"%s-%d"}`, typ, s.r.Intn(1000))
+							if typ == "json_schema" && s.r.Chance(0.4) {
+								body = `{"type":"object","properties":{"group":{"type":["integer","string","null","array","object","number","boolean"]}},"title":"typed"}`
+							}
+							r := Post("node/"+s.head+"/nj/"+typ+"?u=alice", []byte(body))
+							s.log("POST %s %s -> %d", typ, body, r.Code)
+						} else {
+							r := Delete("node/" + s.head + "/nj/" + typ + "?u=alice")
+							s.log("DELETE %s -> %d", typ, r.Code)
+						}
+						c.Count("schema-op")
+						continue
+					}
 					switch k := s.r.Intn(10); {
 					case k < 7:
 						s.genPost()
